@@ -81,10 +81,88 @@ def classify(project: Project, modname: str, gname: str) -> Optional[dict]:
     if not uses:
         return None
     init = mod.globals[gname]
+    g = _identity_keyed(project, mod, gname, uses)
+    if g is not None:
+        return g
     if isinstance(init, ast.Dict) and not init.keys or (isinstance(init, ast.Call) and ast.unparse(init.func) in ("dict", "OrderedDict")
                                                          and not init.args and not init.keywords):
         return _keyed(project, mod, gname, uses)
     return _slot(project, mod, gname, uses)
+
+
+# ------------------------------------------------------------------------------------------------------------ pattern G
+_COPIES = ("copy", "array", "deepcopy", "ascontiguousarray")
+
+
+def _is_copy_of(e, name: str) -> bool:
+    """`e` is a fresh copy of the array called `name`: name.copy(), np.array(name), np.copy(name), copy.deepcopy(name),
+    name.astype(...) (copy=True is the default)"""
+    if isinstance(e, ast.Call) and isinstance(e.func, ast.Attribute) and isinstance(e.func.value, ast.Name) and e.func.value.id == name \
+            and e.func.attr in ("copy", "astype") and not any(k.arg == "copy" for k in e.keywords):
+        return True
+    if isinstance(e, ast.Call) and e.args and isinstance(e.args[0], ast.Name) and e.args[0].id == name \
+            and isinstance(e.func, (ast.Name, ast.Attribute)) and (e.func.attr if isinstance(e.func, ast.Attribute) else e.func.id) in _COPIES \
+            and not any(k.arg == "copy" for k in e.keywords):
+        return True
+    return False
+
+
+def _identity_keyed(project, mod, gname, uses):
+    """a table of records keyed by `id(x)` of an array argument: the record kept for an id is reused only after it has been
+    checked against the array's present contents (`known.describes(x)`, `np.array_equal(known.snapshot, x)`).  That check only
+    means something when the record holds a PRIVATE COPY of the array: a record built on the caller's own array compares the
+    array with itself, and an in-place change between two calls goes unnoticed."""
+    fns = {fi.qualname: fi for fi, _, _ in uses}
+    if len(fns) != 1:
+        return None
+    fi = next(iter(fns.values()))
+    f = fi.node
+    stores = [n for n in ast.walk(f) if isinstance(n, ast.Assign) and len(n.targets) == 1 and isinstance(n.targets[0], ast.Subscript)
+              and isinstance(n.targets[0].value, ast.Name) and n.targets[0].value.id == gname]
+    if len(stores) != 1:
+        return None
+    key = stores[0].targets[0].slice
+    if not (isinstance(key, ast.Call) and isinstance(key.func, ast.Name) and key.func.id == "id" and len(key.args) == 1
+            and isinstance(key.args[0], ast.Name)):
+        return None
+    x = key.args[0].id
+    # the hit: a lookup by the same id, validated against x before the stored record is returned
+    gets = [n for n in ast.walk(f) if isinstance(n, ast.Assign) and isinstance(n.value, (ast.Call, ast.Subscript))
+            and gname in {m_.id for m_ in ast.walk(n.value) if isinstance(m_, ast.Name)} and "id(" in ast.unparse(n.value)
+            and len(n.targets) == 1 and isinstance(n.targets[0], ast.Name)]
+    if len(gets) != 1:
+        return None
+    known = gets[0].targets[0].id
+    validated = False
+    for n in ast.walk(f):
+        if isinstance(n, ast.If) and any(isinstance(r, ast.Return) and r.value is not None and any(
+                isinstance(m_, ast.Name) and m_.id == known for m_ in ast.walk(r.value)) for r in ast.walk(n)):
+            names = {m_.id for m_ in ast.walk(n.test) if isinstance(m_, ast.Name)}
+            calls = [c for c in ast.walk(n.test) if isinstance(c, ast.Call)]
+            if known in names and x in names and calls:
+                validated = True
+    rec = stores[0].value
+    if isinstance(rec, ast.Name):
+        defs = [n.value for n in ast.walk(f) if isinstance(n, ast.Assign) and len(n.targets) == 1 and isinstance(n.targets[0], ast.Name)
+                and n.targets[0].id == rec.id]
+        rec = defs[-1] if defs else rec
+    if not validated:
+        return dict(kind="G", verdict="refuted", node=stores[0], fi=fi,
+                    why=f"`{gname}` keeps results by `id({x})` and hands them back without comparing the array's present contents: an "
+                        f"array changed in place (or a new array that happens to get the same id) gets the old result")
+    if not (isinstance(rec, ast.Call) and rec.args):
+        return dict(kind="G", verdict="unmodelled", node=stores[0], fi=fi, why="how the kept record is built was not recognised")
+    a0 = rec.args[0]
+    if _is_copy_of(a0, x):
+        return dict(kind="G", verdict="ok", node=stores[0], fi=fi,
+                    why=f"`{gname}` is keyed by `id({x})`; a kept record is reused only after it was compared with `{x}`, and it is "
+                        f"built on a private copy (`{ast.unparse(a0)}`), so a change of `{x}` in place is noticed")
+    if isinstance(a0, ast.Name) and a0.id == x:
+        return dict(kind="G", verdict="refuted", node=stores[0], fi=fi,
+                    why=f"`{gname}` is keyed by `id({x})` and a kept record is checked against `{x}` before it is reused — but the "
+                        f"record is built on `{x}` itself (`{ast.unparse(rec)[:50]}`), not on a copy: the check compares the array with "
+                        f"itself, so after an in-place change of `{x}` the results derived from its old contents are handed back")
+    return dict(kind="G", verdict="unmodelled", node=stores[0], fi=fi, why=f"the record is built from `{ast.unparse(a0)[:40]}`")
 
 
 # ------------------------------------------------------------------------------------------------------------ pattern A
